@@ -104,3 +104,21 @@ PROPS["C15"] = {
          "params": {"quick": {"ENC": 2, "N": 14}, "thorough": {"ENC": 2, "N": 24}}},
     ],
 }
+
+PROPS["C08"] = {
+    "files": ["root/fakes.go", "root/c08_cache.go"],
+    "claim": "One inductive step: from EVERY cache state of K regions that satisfies the invariant (distinct names, no two regions of one "
+             "table intersect; tables t / tt / n:t, start and stop keys of up to KL arbitrary bytes, empty stop = unbounded, any ids), "
+             "put(new region) and del(region) executed on the real keyRegionCache and the real B+tree agree with an interval oracle: "
+             "replaced iff not cached by name and nothing overlapped is newer; then exactly the overlapping regions are evicted and "
+             "marked dead and the new one cached; otherwise cache unchanged and nothing marked dead; invariant preserved. Covers "
+             "histories of any length that stay within K live regions.",
+    "outside": "more than K cached regions at the moment of the operation; keys longer than KL bytes; B-tree page splits (>32 entries)",
+    "assumptions": ["pre-states satisfy the representation invariant (they are built directly in the tree, sorted by the tree itself)"],
+    "jobs": [
+        {"name": "cache_put", "pkg": "root", "entry": "VerifCachePut", "reach": ["replaced", "rejected", "already-cached"],
+         "params": {"quick": {"K": 2, "KL": 1, "T": 2}, "thorough": {"K": 3, "KL": 1, "T": 3}}},
+        {"name": "cache_del", "pkg": "root", "entry": "VerifCacheDel", "reach": ["deleted"],
+         "params": {"quick": {"K": 2, "KL": 1, "T": 2}, "thorough": {"K": 3, "KL": 1, "T": 2}}},
+    ],
+}
